@@ -20,7 +20,7 @@ Proof. unfold mem. cbn [existsb]. apply orb_false_iff. Qed.
 Lemma plain_mem_tok m : plain_mem m = true -> exists t, mem_toks m = [t] /\ good_tok t (bmem_char m).
 Proof.
   destruct m as [c| |c]; cbn [plain_mem mem_toks bmem_char]; intros H.
-  - (* MEsc *) apply negb_true_iff in H. unfold is_alnum in H.
+  - (* MEsc *) apply negb_true_iff in H. rewrite H, andb_false_r. unfold is_alnum in H. fold (in_rng 48 57 c) (in_rng 65 90 c) (in_rng 97 122 c) in H.
     apply orb_false_iff in H. destruct H as [H H3]. apply orb_false_iff in H. destruct H as [H1 H2].
     unfold esc_tok. rewrite H1. unfold is_ascii_alpha. rewrite H2, H3. cbn [orb].
     destruct (rs_meta c) eqn:Hm.
